@@ -814,7 +814,8 @@ def rand_c08(seed, tier, cases=None):
     # long runs: 250 calls on one payloader, and inputs cut into 500+ fragments
     for kind in C08_KINDS:
         shapes = _shapes_for(kind)
-        out.append(dict(fam="C08", kind=kind, scribble=True, calls=[dict(mtu=40, shape=shapes[(c * 5) % len(shapes)], len=1 + (c * 13) % 120, salt=c % 200) for c in range(250)], **{"class": kind + "_long_run"}))
+        out.append(dict(fam="C08", kind=kind, scribble=True, parallel=True, calls=[dict(mtu=40, shape=shapes[(c * 5) % len(shapes)], len=1 + (c * 13) % 120, salt=c % 200) for c in range(250)], **{"class": kind + "_long_run"}))
+        out.append(dict(fam="C08", kind=kind, scribble=True, parallel=True, calls=[dict(mtu=1200, shape=shapes[-1 - c % 2], len=200 + (c * 37) % 3000, salt=c % 200) for c in range(120)], **{"class": kind + "_parallel_instances"}))
         out.append(dict(fam="C08", kind=kind, scribble=True, calls=[dict(mtu=11, shape=shapes[-1], len=6000, salt=2), dict(mtu=11, shape="pat", len=6000, salt=3)], **{"class": kind + "_many_fragments"}))
     # the same access unit (SPS, PPS, slice) again on one H264 payloader while the MTU moves across the size of the STAP-A
     au = [0, 0, 0, 1, 0x67] + [1 + (i * 7) % 250 for i in range(11)] + [0, 0, 0, 1, 0x68, 9, 8, 7, 6, 5] + [0, 0, 0, 1, 0x65] + [1 + (i * 5) % 250 for i in range(29)]
